@@ -38,6 +38,8 @@ impl Group for C11Sim {
             c("vh 0 g 0|rv 0|shx 0 g|restart|vh1 0 g 1"),
             c("world fresh|act|vh1 0 g 0|restart|act|restart|vh 0 g 1|rv 0"),
             c("world fresh|vh 0 g 0|act|restart|scp 0 0"),
+            // a full channel map
+            c("newch 1|newch 2|newch 3|newch 4|restart|newch 4|forget 2|newch 4|restart|newch 5"),
             // closing through either entry point must be durable
             c("vh 0 g 0|rv 0|scp 0 0|scp 0 0|cpr 0 g|mc1 b|mc1 g|restart|vh 0 g 3"),
             c("vh 0 g 0|rv 0|scp 0 0|scp 0 0|cpr 0 g|mc g|restart|vh 0 g 3"),
